@@ -298,12 +298,20 @@ def run(c, prog):
                 continue
             if sorted(vs, key=lambda v: v[0]) == [column("cand", "z"), column("self", "z")]:
                 # the comparison decides between Some(id) and None
+                def decisive(cond):
+                    """the comparison is the condition itself or a conjunct of it (under `||` it decides nothing)"""
+                    cond = core.strip(cond)
+                    if cond is n:
+                        return True
+                    if cond.get("k") == "Binary" and cond["op"] == "&&":
+                        return decisive(cond["l"]) or decisive(cond["r"])
+                    return False
                 for m in core.walk_fn(to):
-                    if m.get("k") == "If" and any(x is n for x in core.walk(m["c"])):
+                    if m.get("k") == "If" and decisive(m["c"]):
                         t_some = any(x.get("k") == "Call" and x["f"].get("def") == "core::option::Option::Some" for x in core.walk(m["t"]))
                         f_none = "f" in m and any(x.get("k") == "Path" and x.get("def") == "core::option::Option::None" for x in core.walk(m["f"]))
                         ok = ok or (t_some and f_none)
-                    if m.get("k") == "MethodCall" and m["m"] in ("then_some", "then") and any(x is n for x in core.walk(m["recv"])):
+                    if m.get("k") == "MethodCall" and m["m"] in ("then_some", "then") and decisive(m["recv"]):
                         ok = True
     # the candidate is the rotation for the id being returned
     if ok:
